@@ -66,6 +66,8 @@ pub struct World {
 }
 
 pub const DENOMS: [&str; 3] = ["ua", "ub", "uc"];
+/// rarely used denominations: an unrelated one and near misses of "ua" (other letter case, a prefix, an extension)
+pub const RARE_DENOMS: [&str; 5] = ["ux", "UA", "Ua", "u", "uab"];
 
 impl World {
     pub fn new() -> World {
@@ -227,7 +229,7 @@ pub fn observe(w: &World, rep: &mut Report) -> Option<(String, String)> {
     addrs.sort();
     addrs.dedup();
     let mut denoms = w.model.denoms();
-    for d in DENOMS.iter().chain(["ux"].iter()) {
+    for d in DENOMS.iter().chain(RARE_DENOMS.iter()) {
         if !denoms.contains(&d.to_string()) {
             denoms.push(d.to_string());
         }
@@ -322,7 +324,7 @@ fn gen_coins(rng: &mut Rng, model: &Ledger, from: Option<&str>) -> Coins {
     };
     let mut out: Coins = vec![];
     for _ in 0..n {
-        let d = if rng.chance(1, 25) { "ux".to_string() } else if !out.is_empty() && rng.chance(1, 3) { out[rng.usize_below(out.len())].0.clone() } else { rng.pick(&DENOMS).to_string() };
+        let d = if rng.chance(1, 25) { rng.pick(&RARE_DENOMS).to_string() } else if !out.is_empty() && rng.chance(1, 3) { out[rng.usize_below(out.len())].0.clone() } else { rng.pick(&DENOMS).to_string() };
         let bal = from.map(|f| model.bal(f, &d)).unwrap_or(1000);
         // when the denomination repeats, aim at the cumulative boundary
         let already: u128 = out.iter().filter(|(x, _)| *x == d).map(|(_, a)| *a).sum();
@@ -402,7 +404,10 @@ pub fn run_random(rng: &mut Rng, len: usize, rep: &mut Report) -> (Case, Option<
     let mut ops = vec![];
     // start with some money around
     for u in w.users.clone().iter().take(4) {
-        let coins: Coins = DENOMS.iter().map(|d| (d.to_string(), rng.range_u128(0, 5000))).collect();
+        let mut coins: Coins = DENOMS.iter().map(|d| (d.to_string(), rng.range_u128(0, 5000))).collect();
+        if rng.chance(1, 3) {
+            coins.push((rng.pick(&RARE_DENOMS).to_string(), rng.range_u128(1, 500)));
+        }
         ops.push(BOp::Mint { to: u.clone(), coins });
     }
     // now and then a crowd of funded accounts (totals are computed over all accounts, however many there are)
